@@ -17,6 +17,7 @@
  *         | rg                           carquet_writer_new_row_group
  * Values are bit patterns throughout (floats never interpreted). */
 #include "filecase.h"
+#include "ropts.h"
 #include <sys/stat.h>
 
 /* expected table per row group / column, derived from the history */
@@ -197,8 +198,10 @@ static void run_case(hctx* h, fcase* fc) {
     if (all_ok) {
         carquet_error_t err; memset(&err, 0, sizeof err);
         carquet_reader_options_t ro; carquet_reader_options_init(&ro);
+        h_vary_reader_options(&ro, fb, fn);
         carquet_reader_t* rd = carquet_reader_open(path, &ro, &err);
         carquet_reader_options_t rm; carquet_reader_options_init(&rm); rm.use_mmap = true;
+        h_vary_reader_options(&rm, fb, fn); rm.use_mmap = true;
         carquet_reader_t* rdm = carquet_reader_open(path, &rm, &err);
         carquet_reader_t* rdb = carquet_reader_open_buffer(fb, fn, &ro, &err);
         if (!rd) { fprintf(h->out, " open=E%d", (int)err.code); roundtrip = 0; }
